@@ -39,6 +39,8 @@ CLAIMED = {
     'C15': ('6.C15', 'the finite variant space (aliases read from the lexer grammar of the current tree, separators, parentheses, semicolon/head, LTL front end, every ordered '
             'operator pair against the grouping prescribed by the parser grammar, unless sugar) is enumerated; for each pair of texts z3 shows equal results and equality with '
             'the intended AST semantics for all sample values'),
+    'C16': ('6.C16', 'trace and extension are symbolic; z3 shows evaluate(w1++e) and evaluate(w1) agree for all values at every t with t+h inside w1 (discrete) and at '
+            'every symbolic instant tau with tau+h < end(w1) (dense), h computed independently of rtamt'),
 }
 NA = {
     'C14': 'the quantifier ranges over strings and every string is consumed by the ANTLR4 ATN interpreter, which cannot be encoded or '
